@@ -19,7 +19,7 @@
      footprint comp p          the classes of the with-blocks of p and their documented composites. *)
 From Coq Require Import List String ZArith Bool.
 From GPV Require Import Models.C20_ir Models.C20_check Models.C20_run Gen.Settings_gen
-                        Proofs.C20_scoped Proofs.C20_gen.
+                        Proofs.C20_scoped Proofs.C20_inner Proofs.C20_gen.
 Import ListNotations.
 Open Scope string_scope.
 
@@ -49,6 +49,47 @@ Proof.
   intros p G G' o tr Hc Hr. destruct (scoped_gen p G G' o tr Hc Hr) as [_ [_ H3]]. exact H3.
 Qed.
 Print Assumptions c20_frame.
+
+(* SCOPED, at the level of the public queries: for every program over the checked classes other than
+   deterministic_probes (whose probe-vector cache is dropped by design), EVERY query -- any class, any
+   method, any arguments: on(), off(), value(dtype), num_probe_vectors(), is_default() ... -- returns
+   after the program, normal or exceptional exit, exactly what it returned before. *)
+Theorem c20_scoped_queries :
+  forall (p : prog) (G G' : store) (o : outcome) (tr : list store),
+    (forall c, In c (prog_classes p) -> In c checked0) ->
+    run gen_table p G = (G', o, tr) ->
+    forall c m args, observe gen_table G' c m args = observe gen_table G c m args.
+Proof. exact queries_scoped_gen. Qed.
+Print Assumptions c20_scoped_queries.
+
+Theorem c20_checked0_is_checked_minus_probes :
+  forall c, In c checked0 <-> (In c checked /\ c <> "lo.deterministic_probes").
+Proof.
+  intros c. split.
+  - intros H. split; [exact (checked0_checked c H)|]. intros E. subst c.
+    unfold checked0 in H. apply filter_In in H. destruct H as [_ H]. discriminate H.
+  - intros [H1 H2]. exact (checked_checked0 c H1 H2).
+Qed.
+Print Assumptions c20_checked0_is_checked_minus_probes.
+
+(* INNERMOST WINS -- partial.  Proved (all blocks, arguments, bodies, stores): whatever a block shows at
+   the start of its body (s0) is what every later observation in its body shows, for every class that
+   has no inner block in the body; inner blocks put it back when they end (c20_scoped applied to them).
+   So at every point the visible value of a class is the one established by the innermost enclosing
+   block of that class (or a composite of it).
+   NOT proved: that s0 shows "what the arguments request" (state=..., value=..., per-dtype values that are
+   not None, num_probe_vectors=..., the composites' members).  That half needs a specification of every
+   constructor's arguments; it is TESTED on every run by the driver (real classes vs the reference
+   semantics, and vs this model). *)
+Theorem c20_innermost_wins_partial :
+  forall c args body G G' o tr,
+    (forall k, In k (prog_classes body) -> In k checked) ->
+    run gen_table (PWith c args (PSeq PObserve body)) G = (G', o, tr) ->
+    tr = [] \/ exists s0 tr', tr = s0 :: tr' /\
+      forall s, In s tr' -> forall k a, ~ In k (footprint doc_composites body) -> doc_caches k a = false ->
+        lookup_v gen_table s k a = lookup_v gen_table s0 k a.
+Proof. exact innermost_gen. Qed.
+Print Assumptions c20_innermost_wins_partial.
 
 (* what "checked" covers: every class of gpytorch itself, and every exported name but cholesky_jitter *)
 Theorem c20_repo_classes_checked :
@@ -84,3 +125,5 @@ Example ex_c20_program_runs :
   run_case (ex_queries, ex_prog)
   = [1; 2;  1; 1; 2; 7; 1; 0;   1; 1; 2; 7; 1; 2; 1; 2;   1; 0; 2; 1; 1; 0]%Z.
 Proof. exact ex_prog_runs. Qed.
+Example ex_c20_program_checked0 : forall c, In c (prog_classes ex_prog) -> In c checked0.
+Proof. exact ex_prog_checked0. Qed.
